@@ -13,6 +13,7 @@ CONSTANTS
   FixDrift = TRUE
   WithEnv = TRUE
   FsExact = %(exact)s
+  EarlyVerify = FALSE
   ILen <- TILen
 INVARIANT %(inv)s
 POSTCONDITION TraceAccepted
@@ -37,6 +38,8 @@ def models(ctx, thorough):
     ctx.model("MC_ChunkCache", "MC_ChunkCache_env.cfg", must_cover=("EDamage", "EPlant", "EDeleteWhileOpen", "EReopen", "EClose"))
     # negative control: the commit step as it was found in the tree (F4) drifts total_bytes
     ctx.model("MC_ChunkCache", "MC_ChunkCache_drift.cfg", expect_violation="Invs", coverage=False)
+    # negative control: verified flag published before the checksum pass -> a concurrent reader is served damaged bytes
+    ctx.model("MC_ChunkCache", "MC_ChunkCache_earlyverify.cfg", expect_violation="Invs", coverage=False)
     if thorough:
         ctx.model("MC_ChunkCache", "MC_ChunkCache_big.cfg", timeout=3000)
 
@@ -73,6 +76,12 @@ def run_all(ctx, focus):
                                       capx=4, out=t)
         validate(ctx, t, "faults")
         ctx.exhaustive = thorough
+    if focus == "hits":
+        # damaged item read by 8 threads at the same moment (large chunks: the checksum pass takes milliseconds)
+        t = os.path.join(w, "dstorm.ndjson")
+        summaries["dstorm"] = vlib.xv("chunkcache", mode="dstorm", n=12 * k, threads=8, seed=ctx.seed, keys=1, nch=4,
+                                      minlen=1500000, maxlen=2000000, capx=3, out=t)
+        validate(ctx, t, "dstorm", exact=False)
     t = os.path.join(w, "storm.ndjson")
     summaries["storm"] = vlib.xv("chunkcache", mode="storm", n=6 * k, threads=8, ops=40, seed=ctx.seed, keys=2, nch=3, capx=2, out=t)
     validate(ctx, t, "storm", exact=False)
